@@ -34,6 +34,25 @@ static const struct { const char *name, *bytes; int kind; } ops[] = {
 #define NOPS ((int) (sizeof(ops) / sizeof(ops[0])))
 static int nops_used;
 
+/* the same in ex mode (vi -s -e): there ex_command() alone ends a command, and a command line may edit
+ * and still fail in a later part */
+static const struct { const char *name, *bytes; int kind; } ops_ex[] = {
+	{"1s/a/Q/", "1s/a/Q/\n", K_EDIT},
+	{"u", "u\n", K_UNDO},
+	{"redo", "redo\n", K_REDO},
+	{"1s/a/Q/|99p", "1s/a/Q/|99p\n", K_EDIT},
+	{"2d", "2d\n", K_EDIT},
+	{"$a|x|.", "$a\nx\n.\n", K_EDIT},
+	{"g/a/s//R/", "g/a/s//R/\n", K_EDIT},
+	{"1d|'zd", "1d|'zd\n", K_EDIT},
+	{"99d", "99d\n", K_EDIT},
+	{"1,2d|1pu", "1,2d|1pu\n", K_EDIT},
+};
+#define NOPS_EX ((int) (sizeof(ops_ex) / sizeof(ops_ex[0])))
+static int exmode;
+#define OP_NAME(k) (exmode ? ops_ex[k].name : ops[k].name)
+#define OP_KIND(k) (exmode ? ops_ex[k].kind : ops[k].kind)
+
 /* reference: the stack of texts, one entry per command that spliced the buffer */
 #define MAXT 16
 static char *texts[MAXT];
@@ -64,13 +83,13 @@ static void pre_state(void)
 		idx = 0;
 		return;
 	}
-	if (!nvx_idle) {
-		nx_viol("c04-idle", "the editor is still inside a command after the keys of %s", ops[k].name);
+	if (!nvx_idle && !exmode) {
+		nx_viol("c04-idle", "the editor is still inside a command after the keys of %s", OP_NAME(k));
 		state_bad = 1;
 		free(t);
 		return;
 	}
-	switch (ops[k].kind) {
+	switch (OP_KIND(k)) {
 	case K_EDIT:
 		if (nvx_splices > 0) {
 			/* a modifying command: it is one undo step and discards the redo branch */
@@ -81,7 +100,7 @@ static void pre_state(void)
 				return;
 			}
 		} else if (strcmp(t, texts[idx])) {
-			nx_viol("c04-silent-change", "%s changed the text without going through the line buffer's edit interface", ops[k].name);
+			nx_viol("c04-silent-change", "%s changed the text without going through the line buffer's edit interface", OP_NAME(k));
 			state_bad = 1;
 		}
 		break;
@@ -90,11 +109,11 @@ static void pre_state(void)
 			idx--;
 			if (strcmp(t, texts[idx])) {
 				nx_viol("c04-undo", "%s gives \"%s\"; the text before the most recent not-yet-undone modifying command was \"%s\" (one step per command)",
-					ops[k].name, nv_esc(t, -1), nv_esc(texts[idx], -1));
+					OP_NAME(k), nv_esc(t, -1), nv_esc(texts[idx], -1));
 				state_bad = 1;
 			}
 		} else if (strcmp(t, texts[0])) {
-			nx_viol("c04-undo-end", "%s at the beginning of the history changed the text to \"%s\"", ops[k].name, nv_esc(t, -1));
+			nx_viol("c04-undo-end", "%s at the beginning of the history changed the text to \"%s\"", OP_NAME(k), nv_esc(t, -1));
 			state_bad = 1;
 		}
 		break;
@@ -102,11 +121,11 @@ static void pre_state(void)
 		if (idx + 1 < nt) {
 			idx++;
 			if (strcmp(t, texts[idx])) {
-				nx_viol("c04-redo", "%s gives \"%s\"; the matching undo had removed \"%s\"", ops[k].name, nv_esc(t, -1), nv_esc(texts[idx], -1));
+				nx_viol("c04-redo", "%s gives \"%s\"; the matching undo had removed \"%s\"", OP_NAME(k), nv_esc(t, -1), nv_esc(texts[idx], -1));
 				state_bad = 1;
 			}
 		} else if (strcmp(t, texts[idx])) {
-			nx_viol("c04-redo-end", "%s at the end of the history changed the text to \"%s\"", ops[k].name, nv_esc(t, -1));
+			nx_viol("c04-redo-end", "%s at the end of the history changed the text to \"%s\"", OP_NAME(k), nv_esc(t, -1));
 			state_bad = 1;
 		}
 		break;
@@ -122,11 +141,11 @@ static void nx_at_state(void)
 	__sync_fetch_and_add(&nx_sh->hist[idx < 7 ? idx : 7], 1);
 }
 static int nx_nops(void) { return nops_used; }
-static const char *nx_op_name(int k) { return ops[k].name; }
+static const char *nx_op_name(int k) { return OP_NAME(k); }
 static int nx_op_bytes(int k, char *buf, int max)
 {
 	(void) max;
-	strcpy(buf, ops[k].bytes);
+	strcpy(buf, exmode ? ops_ex[k].bytes : ops[k].bytes);
 	return strlen(buf);
 }
 static int nx_enabled(int k)
@@ -138,7 +157,7 @@ static unsigned long long nx_state_hash(void) { return 0; }
 static int nx_leaf_bytes(char *buf, int max)
 {
 	(void) max;
-	strcpy(buf, ESC ":w! out\n:q!\n");
+	strcpy(buf, exmode ? "w! out\nq!\n" : ESC ":w! out\n:q!\n");
 	return strlen(buf);
 }
 static void nx_at_exit(void)
@@ -157,18 +176,25 @@ static const char *hist_name(int i)
 static void run_config(int c, int depth, int n)
 {
 	char *argv[] = {"vi", "-v", "f", NULL};
+	char *argv_ex[] = {"vi", "-s", "-e", "f", NULL};
 	static const char *bufs[] = {"ab a\nsecond line a\nthird\nfourth a b\nfifth\n", "a\n", "one a\n\n  two\n"};
 	cfg = c;
 	nops_used = n;
+	exmode = c >= 10;
+	if (exmode)
+		c -= 10;
 	vfs_n = 0;
 	vfs_put("f", bufs[c], -1);
 	setenv("LINES", "24", 1);
 	setenv("COLUMNS", "60", 1);
 	setenv("EXINIT", "se wa", 1);	/* filters are refused on a modified buffer unless writeany is set */
-	snprintf(cfg_name, sizeof(cfg_name), "buf%d", c);
+	snprintf(cfg_name, sizeof(cfg_name), "%sbuf%d", exmode ? "ex/" : "", c);
 	nx_bound = depth;
-	snprintf(nx_cfg_args, sizeof(nx_cfg_args), "cfg=%d", c);
-	nx_run(3, argv);
+	snprintf(nx_cfg_args, sizeof(nx_cfg_args), "cfg=%d", exmode ? c + 10 : c);
+	if (exmode)
+		nx_run(4, argv_ex);
+	else
+		nx_run(3, argv);
 	nv_stat("configurations", 1);
 	nx_report();
 }
@@ -185,13 +211,16 @@ int main(int argc, char **argv)
 	nx_trace_every = atoi(nv_arg(argc, argv, "trace", nv_thorough ? "1999" : "199"));
 	signal(SIGPIPE, SIG_IGN);
 	if (nv_arg(argc, argv, "cfg", NULL)) {
-		run_config(atoi(nv_arg(argc, argv, "cfg", "0")), nx_replay_n >= 0 ? 12 : d, NOPS);
+		int c = atoi(nv_arg(argc, argv, "cfg", "0"));
+		run_config(c, nx_replay_n >= 0 ? 12 : d, c >= 10 ? NOPS_EX : NOPS);
 		return nv_finish();
 	}
 	run_config(0, d, 12);		/* depth d over the 12-operation core */
 	run_config(0, d - 1, NOPS);	/* depth d-1 over everything */
 	run_config(1, d - 1, 12);
 	run_config(2, d - 1, 12);
+	run_config(10, d, NOPS_EX);	/* ex mode */
+	run_config(12, d - 1, NOPS_EX);
 	nv_stat("max:depth", d);
 	if (nv_shard == 0)
 		nv_sample("config=buf0 history=[2dd ; :g/a/d ; u ; x ; ^R ; u ; u]: after every u / ^R / :u / :redo the buffer text vs the harness's own stack of whole-text snapshots (one per command that spliced the buffer)");
